@@ -5,7 +5,7 @@ from harness import runner, tlc, isagen
 
 INV = ['SelectedIsLeastAccepting', 'RegisterNeverNumeric', 'NoAcceptingMeansRejected', 'ValueNeverSelects', 'Emit']
 TXT = {'r': 'r1', 'r2': 'r2', '[r]': '[r1]', '[r+n]': '[r1+5]', '[n]': '[5]', '[[n]]': '[[5]]', 'r+n': 'r1+5', 'key': 'kx',
-       'void': '', 'bignum': '300', 'num': '5', 'lab': 'lab', '{n}': '{5}', 'hexa': '$a', 'chra': "'a'", 'r++': 'r1++', '@r': '@r1', '-[r]': '-[r1]'}
+       '++r': '++r1', 'r+key': 'r1+kx', 'void': '', 'bignum': '300', 'num': '5', 'lab': 'lab', '{n}': '{5}', 'hexa': '$a', 'chra': "'a'", 'r++': 'r1++', '@r': '@r1', '-[r]': '-[r1]'}
 VAL = {'bignum': 300, 'num': 5, 'lab': 9, 'key': 7, '{n}': 5, 'hexa': 10, 'chra': 97}
 
 
@@ -22,6 +22,8 @@ def alt_cfg(a):
         return {'type': 'register', 'register': 'r1', 'bytecode': code}
     if ty == 'register_pp':
         return {'type': 'register', 'register': 'r1', 'bytecode': code, 'decorator': {'type': 'plus_plus', 'is_prefix': False}}
+    if ty == 'register_prepp':
+        return {'type': 'register', 'register': 'r1', 'bytecode': code, 'decorator': {'type': 'plus_plus', 'is_prefix': True}}
     if ty == 'register_at':
         return {'type': 'register', 'register': 'r1', 'bytecode': code, 'decorator': {'type': 'at', 'is_prefix': True}}
     if ty == 'indirect_register_pre':
@@ -35,6 +37,11 @@ def alt_cfg(a):
         if off:
             c['offset'] = dict(arg)
         return c
+    if ty == 'indexed_register2':
+        # two index alternatives, listed numeric first: the enumeration (argument 0x33 for the key kx) still has priority for kx
+        return {'type': 'indexed_register', 'register': 'r1', 'bytecode': code,
+                'index_operands': {f'in{aid}': {'type': 'numeric', 'argument': dict(arg)},
+                                   f'ie{aid}': {'type': 'enumeration', 'argument': dict(arg, value_dict={'kx': 0x33, 'ky': 0x44})}}}
     if ty in ('indirect_indexed_register', 'indexed_register'):
         return {'type': ty, 'register': 'r1', 'bytecode': code, 'index_operands': {f'ix{aid}': {'type': 'numeric', 'argument': dict(arg)}}}
     if ty in ('indirect_numeric', 'deferred_numeric', 'numeric', 'address'):
@@ -100,18 +107,21 @@ def expected_prefix(e):
             for a in s:
                 alts[a[0]] = a
     texts = list(e['t'])
+    tail = []
     for aid in r['ids']:
         t = None if alts[aid][1] == 'empty' else texts.pop(0)
         if alts[aid][1] == 'numeric_bytecode':
             out.append(VAL[t])
         else:
             out.append(aid)
-    return bytes(out)
+        if alts[aid][1] == 'indexed_register2' and len(r['ids']) == 1:
+            tail = [0x33 if t == 'r+key' else 5]          # Match!IndexReading: the key is read by the enumeration index, a number by the numeric one
+    return bytes(out + tail)
 
 
 def evaluate(e):
     isa, src = build(e)
-    n = 1 + (len(e['r']['ids']) if e['r']['ok'] else len(e['t']))
+    n = len(expected_prefix(e)) if e['r']['ok'] else 1 + len(e['t'])
     case = {'config': isa, 'files': {'main.asm': src}, 'start': 0, 'end': n - 1}
     obs = runner.run_case(case)
     if obs['status'] == 'timeout':
@@ -184,8 +194,10 @@ def run(chk):
         cap = 14000 if quick else 120000
         if len(emits) > cap:
             # every scenario in which a value decides the statement's fate after selection, and a seeded sample of the others
-            keep = [e for e in emits if e['r'] != e['sel']]
-            rest = [e for e in emits if e['r'] == e['sel']]
+            rare = lambda e: e['r'] != e['sel'] or 'r+key' in e['t'] or '++r' in e['t'] or 'r++' in e['t']
+            keep = [e for e in emits if rare(e)]
+            rng.shuffle(keep)
+            rest = [e for e in emits if not rare(e)]
             emits = keep[:cap // 2] + rng.sample(rest, cap - min(len(keep), cap // 2))
         chk.notes.setdefault('instances', []).append({'tag': tag, 'enumerated': len(res.emits), 'replayed': len(emits)})
         outs = runner.pmap(evaluate, emits)
